@@ -163,15 +163,17 @@ def do_golden_runs():
         logging.info(f'ignoring stdout')
     if options.args().ignore_output or options.args().ignore_err:
         logging.info(f'ignoring stderr')
+    # (a golden run that was stopped at the time limit has no output at all:
+    # out and err are None)
     if options.args().match_out:
         logging.info(f'match (stdout): "{options.args().match_out}"')
-        if options.args().match_out not in __GOLDEN.out:
+        if options.args().match_out not in (__GOLDEN.out or ''):
             logging.error(
                 f'Expected stdout to match "{options.args().match_out}"')
             sys.exit(1)
     if options.args().match_err:
         logging.info(f'match (stderr): "{options.args().match_err}"')
-        if options.args().match_err not in __GOLDEN.err:
+        if options.args().match_err not in (__GOLDEN.err or ''):
             logging.error(
                 f'Expected stderr to match "{options.args().match_err}"')
             sys.exit(1)
@@ -194,14 +196,16 @@ def do_golden_runs():
         if options.args().match_out_cc:
             logging.info(
                 f'match (cc) (stdout): "{options.args().match_out_cc}"')
-            if options.args().match_out_cc not in __GOLDEN_CC.out:
+            if options.args().match_out_cc not in (__GOLDEN_CC.out
+                                                      or ''):
                 logging.error('Expected stdout of the cross check to match '
                               f'"{options.args().match_out_cc}"')
                 sys.exit(1)
         if options.args().match_err_cc:
             logging.info(
                 f'match (cc) (stderr): "{options.args().match_err_cc}"')
-            if options.args().match_err_cc not in __GOLDEN_CC.err:
+            if options.args().match_err_cc not in (__GOLDEN_CC.err
+                                                      or ''):
                 logging.error('Expected stderr of the cross check to match '
                               f'"{options.args().match_err_cc}"')
                 sys.exit(1)
